@@ -9,6 +9,7 @@
      "slepian": two grids VA (rho1) and VB (rho2) with rho1 < rho2, same means and variances: VA <= VB entrywise
      "limit"  : V at rho = 1 - 1e-6 : F -> Phi(min(h,k)) within sqrt(1 - rho^2)
      "product": zero covariance: VG (gaussian with diagonal covariance), VS (sbvn_cdf), N1 (norm_cdf on ts) against the Phi table
+     "productx": zero covariance at off-lattice points: VG, VS against the product of NX, NY (univariate CDF at exactly standardised coordinates)
      "uniform": box CDF: pts = [[x, y, mx, my, w, h, [finite, value]]] in ticks                                               *)
 EXTENDS Tables, FiniteSets, TLC, FiniteSetsExt, SequencesExt, Json, IOUtils, TLCExt
 Cases == JsonDeserialize(IOEnv.TRACE_FILE)
@@ -103,6 +104,17 @@ ProductVerdict(c) ==
      ELSE IF badS # {} THEN <<"fail", "sbvn_cdf-not-product-of-marginals">> \o First(badS)
      ELSE IF badG # {} THEN <<"fail", "zero-covariance-gaussian-not-product-of-marginals">> \o First(badG)
      ELSE <<"ok", "", 0, 0>>
+\* kind "productx": off-lattice points; NX, NY = the code\'s univariate CDF at the exactly standardised coordinates (the harness forms them in
+\* rational arithmetic from the doubles the code receives); the zero-covariance kernel is their product to the 1e-7 the property grants
+ProductXVerdict(c) ==
+  LET n == Len(c.NX) I == 1..n
+      fin == (\A i \in I : c.NX[i][1] = 1 /\ c.NY[i][1] = 1)
+      badG == {<<i, j>> \in I \X I : c.VG[i][j][1] = 0 \/ ~FClose(Vv(c.VG, i, j), FMul(c.NX[i][2], c.NY[j][2]), E7)}
+      badS == {<<i, j>> \in I \X I : c.VS[i][j][1] = 0 \/ ~FClose(Vv(c.VS, i, j), FMul(c.NX[i][2], c.NY[j][2]), E7)}
+  IN IF ~fin THEN <<"fail", "not-finite", 0, 0>>
+     ELSE IF badS # {} THEN <<"fail", "sbvn_cdf-not-product-of-marginals">> \o First(badS)
+     ELSE IF badG # {} THEN <<"fail", "zero-covariance-gaussian-not-product-of-marginals">> \o First(badG)
+     ELSE <<"ok", "", 0, 0>>
 Clamp(x, lo, hi) == IF x < lo THEN lo ELSE IF x > hi THEN hi ELSE x
 UniformVerdict(c) ==   \* coordinates in HALF ticks so that centre +- width/2 is an integer
   LET bad == {i \in 1..Len(c.pts) :
@@ -123,7 +135,7 @@ RidgeVerdict(c) ==
   ELSE IF c.sgn = 1 /\ c.frechet = 1 /\ \E i \in 1..n : ~FLeq(c.R[i][2], FAdd(PhiTab(c.ts[i]), E9)) THEN <<"fail", "outside-frechet-bounds", 0, 0>>
   ELSE <<"ok", "", 0, 0>>
 Verdict(c) == CASE c.kind = "ridge" -> RidgeVerdict(c) [] c.kind = "grid" -> GridVerdict(c) [] c.kind = "seam" -> SeamVerdict(c) [] c.kind = "limit" -> LimitVerdict(c)
-                [] c.kind = "slepian" -> SlepianVerdict(c) [] c.kind = "product" -> ProductVerdict(c) [] c.kind = "uniform" -> UniformVerdict(c)
+                [] c.kind = "slepian" -> SlepianVerdict(c) [] c.kind = "product" -> ProductVerdict(c) [] c.kind = "productx" -> ProductXVerdict(c) [] c.kind = "uniform" -> UniformVerdict(c)
 TInit == k = 1
 TNext == /\ k <= Len(Cases)
          /\ PrintT(<<"V", k>> \o Verdict(Cases[k]))
